@@ -138,10 +138,8 @@ fn cand_of(sig: &syn::Signature, vis: &syn::Visibility, attrs: &[syn::Attribute]
     let mut method = false;
     for a in &sig.inputs {
         match a {
-            syn::FnArg::Receiver(r) => {
-                if r.reference.is_none() {
-                    return None;
-                }
+            syn::FnArg::Receiver(_) => {
+                // `self`, `&self`, `&mut self`: the body's `self` is the caller's `self` (calls are `self.h(..)` only)
                 method = true;
             }
             syn::FnArg::Typed(pt) => match &*pt.pat {
@@ -201,8 +199,13 @@ fn call_of<'e>(e: &'e syn::Expr, c: &Cand) -> Option<(Vec<syn::Expr>, bool)> {
         }
         _ => return None,
     };
-    if args.len() != c.params.len() || !args.iter().all(pure_arg) {
+    if args.len() != c.params.len() || !args.iter().all(|a| pure_arg(a) || closure_arg(a)) {
         return None;
+    }
+    for (p, a) in c.params.iter().zip(&args) {
+        if closure_arg(a) && !only_called(&c.body, p) {
+            return None;
+        }
     }
     for (p, a) in c.params.iter().zip(&args) {
         if c.fixed.contains(p) && sm::as_ident(a).as_deref() != Some(p.as_str()) {
@@ -212,9 +215,88 @@ fn call_of<'e>(e: &'e syn::Expr, c: &Cand) -> Option<(Vec<syn::Expr>, bool)> {
     Some((args, tried))
 }
 
+/// A closure literal with plain identifier parameters and a body without `return`: it can be applied in place.
+fn closure_arg(e: &syn::Expr) -> bool {
+    match e {
+        syn::Expr::Closure(c) => {
+            c.capture.is_none()
+                && c.inputs.iter().all(|p| match p {
+                    syn::Pat::Ident(pi) => pi.by_ref.is_none() && pi.subpat.is_none(),
+                    syn::Pat::Type(pt) => matches!(&*pt.pat, syn::Pat::Ident(pi) if pi.by_ref.is_none() && pi.subpat.is_none()),
+                    _ => false,
+                })
+                && {
+                    let mut v = vec![];
+                    sm::flat_tokens(quote::ToTokens::to_token_stream(&c.body), &mut v);
+                    !v.iter().any(|t| t == "return")
+                }
+        }
+        _ => false,
+    }
+}
+
+/// Is the parameter `p` used in `body` only as the callee of direct calls `p(args)` with pure arguments?
+fn only_called(body: &syn::Block, p: &str) -> bool {
+    let mut v = vec![];
+    sm::flat_tokens(quote::ToTokens::to_token_stream(body), &mut v);
+    v.iter().enumerate().all(|(i, t)| t != p || (v.get(i + 1).map_or(false, |n| n == "(") && (i == 0 || (v[i - 1] != "." && v[i - 1] != "&"))))
+}
+
+/// Apply closure arguments in place: `f(a)` with `f := |x| body`  ->  `body[x := a]`.
+struct Beta<'a> {
+    closures: &'a BTreeMap<String, syn::ExprClosure>,
+    failed: bool,
+}
+
+impl<'a> VisitMut for Beta<'a> {
+    fn visit_expr_mut(&mut self, e: &mut syn::Expr) {
+        visit_mut::visit_expr_mut(self, e);
+        let repl: Option<syn::Expr> = match e {
+            syn::Expr::Call(call) => match sm::as_ident(&call.func).and_then(|n| self.closures.get(&n)) {
+                Some(cl) => {
+                    if call.args.len() != cl.inputs.len() || !call.args.iter().all(pure_arg) {
+                        self.failed = true;
+                        None
+                    } else {
+                        let names: Vec<String> = cl
+                            .inputs
+                            .iter()
+                            .map(|p| match p {
+                                syn::Pat::Ident(pi) => pi.ident.to_string(),
+                                syn::Pat::Type(pt) => match &*pt.pat {
+                                    syn::Pat::Ident(pi) => pi.ident.to_string(),
+                                    _ => String::new(),
+                                },
+                                _ => String::new(),
+                            })
+                            .collect();
+                        let map: BTreeMap<String, syn::Expr> = names.into_iter().zip(call.args.iter().cloned()).collect();
+                        let mut body = (*cl.body).clone();
+                        Subst { map: &map }.visit_expr_mut(&mut body);
+                        Some(match body {
+                            syn::Expr::Struct(_) | syn::Expr::Call(_) | syn::Expr::MethodCall(_) | syn::Expr::Path(_) | syn::Expr::Lit(_) | syn::Expr::Macro(_) | syn::Expr::Field(_) | syn::Expr::Index(_) | syn::Expr::Paren(_) | syn::Expr::Tuple(_) | syn::Expr::Block(_) => body,
+                            other => syn::Expr::Paren(syn::ExprParen { attrs: vec![], paren_token: Default::default(), expr: Box::new(other) }),
+                        })
+                    }
+                }
+                None => None,
+            },
+            _ => None,
+        };
+        if let Some(r) = repl {
+            *e = r;
+        }
+    }
+}
+
 fn instantiate(c: &Cand, args: Vec<syn::Expr>) -> syn::Block {
-    let map: BTreeMap<String, syn::Expr> = c.params.iter().cloned().zip(args).filter(|(p, a)| sm::as_ident(a).as_deref() != Some(p.as_str())).collect();
+    let closures: BTreeMap<String, syn::ExprClosure> = c.params.iter().cloned().zip(args.iter().cloned()).filter_map(|(p, a)| if let syn::Expr::Closure(cl) = a { Some((p, cl)) } else { None }).collect();
+    let map: BTreeMap<String, syn::Expr> = c.params.iter().cloned().zip(args).filter(|(p, a)| !closures.contains_key(p) && sm::as_ident(a).as_deref() != Some(p.as_str())).collect();
     let mut b = c.body.clone();
+    if !closures.is_empty() {
+        let mut beta = Beta { closures: &closures, failed: false };
+        beta.visit_block_mut(&mut b);
+    }
     // `use` items inside the helper body are dropped (paths resolve the same way at file level in this code base or
     // the rules do not depend on them)
     b.stmts.retain(|s| !matches!(s, syn::Stmt::Item(syn::Item::Use(_))));
@@ -538,12 +620,30 @@ pub fn inline_single_call_helpers(f: &mut syn::File, reviewed: &BTreeSet<String>
         }
         let mut any = false;
         for c in &cands {
-            if count_calls(f, c) != 1 {
+            let n_calls = count_calls(f, c);
+            if n_calls == 0 || n_calls > 4 {
                 continue;
             }
-            let mut sp = Splicer { c, exit: false, done: false };
-            sp.visit_file_mut(f);
-            if sp.done {
+            // a helper with several call sites is spliced only if every one of them can be
+            let saved = if n_calls > 1 { Some(f.clone()) } else { None };
+            let mut spliced = 0;
+            for _ in 0..n_calls {
+                let mut sp = Splicer { c, exit: false, done: false };
+                sp.visit_file_mut(f);
+                if !sp.done {
+                    break;
+                }
+                spliced += 1;
+            }
+            if spliced != n_calls {
+                if let Some(s) = saved {
+                    *f = s;
+                }
+                if spliced == 0 || n_calls > 1 {
+                    continue;
+                }
+            }
+            {
                 any = true;
                 let name = c.name.clone();
                 for it in f.items.iter_mut() {
